@@ -180,4 +180,16 @@ def wrapGuard (S : Schema) (doc : Node) (a b depth : Nat) (wrappers : List (Type
   | some f, some t => wrapGuardR S f t depth wrappers
   | _, _ => true
 
+/-- … and what it does not look at either: `Transform.wrap` wants every wrapper to accept the next one as its
+    *only* child (`match_fragment(content).valid_end`, a `TransformError` otherwise).  The chain `find_wrapping`
+    returns is `around ++ [type] ++ inside`, the results of two separate searches; `compute_wrapping` ends a
+    search as soon as `match_type(target)` succeeds, so the last wrapper of `around` need only accept `type`
+    as *first* child, and `type` need only accept the first wrapper of `inside` as first child.  (Also here:
+    the attributes given for `type` are complete and `type` is not the text type, both `ValueError` in
+    `NodeType.create`.)  This is "building the step succeeds", on the wrappers alone. -/
+def wrapBuilds (S : Schema) (wrappers : List (TypeId × Attrs)) : Bool :=
+  match wrapContent S wrappers with
+  | .ok _ => true
+  | .error _ => false
+
 end PM
